@@ -148,3 +148,170 @@ def leaf_packing(crate, N=3):
         if m >= 2:
             P.cover(ex, res, o, z3.UGT(ents[1][2] - ents[0][2], BV64(block)), "a key group longer than one block")
     return P.finish(ex, res, ["two or more leaves", "all keys in one leaf", "a key group longer than one block"])
+
+
+def find_leaf_descent(crate, D=3):
+    """C09: BPTreeFileIndex::find_leaf_node: the descent follows the offsets the nodes give (root node from memory exactly
+    when the offset is tree_offset, any other node read from the file at that offset) and stops at the FIRST offset that is
+    not below leaves_offset, which is returned — a leaf offset is never interpreted as a tree node and the descent never
+    stops inside the tree; node decoding / read errors are returned."""
+    res = P.ObResult("find_leaf_descent[depth<=%d]" % D)
+    fn = crate.method("BPTreeFileIndex", "find_leaf_node")
+    res.functions = ["BPTreeFileIndex::find_leaf_node (async body)"]
+    res.bounds = "<= %d levels (loop unwound %d times, deeper descents dropped), arbitrary offsets, every outcome of node search / file read" % (D, D + 1)
+    ex = P.mk_executor(crate, cap=2, loop_bound=D + 1, inline=[], havoc=[r"^<BytesMut as Deref>::deref$"])
+    ex.unwind_assume = True
+    st = State()
+    me = Obj("bptree::core::BPTreeFileIndex<K>")
+    meta = Obj("bptree::meta::TreeMeta")
+    leaves, tree = z3.BitVec("leaves_offset", 64), z3.BitVec("tree_offset", 64)
+    meta.fields[(None, crate.field_index("TreeMeta", "leaves_offset"))] = Sym(leaves, "u64")
+    meta.fields[(None, crate.field_index("TreeMeta", "tree_offset"))] = Sym(tree, "u64")
+    me.fields[(None, crate.field_index("BPTreeFileIndex", "metadata"))] = meta
+    root = Obj("bytes::BytesMut"); root.fields[("g", "which")] = Sym(BV64(1), "u64")
+    me.fields[(None, crate.field_index("BPTreeFileIndex", "root_node"))] = root
+    mc = st.new_cell(me)
+    start = z3.BitVec("start_offset", 64)
+    st.pc.append(z3.ULE(tree, leaves))
+    buf = Obj("bytes::BytesMut"); buf.fields[("g", "which")] = Sym(BV64(2), "u64")
+    key = Ref(st.new_cell(Obj("K")), (), False, "&K")
+
+    def await_hook(ex_, st_, name, fargs, out_ty, dty):
+        if "read_exact_at" in name:
+            r = ex_.fresh(out_ty, st_, "node")
+            b = Obj("bytes::BytesMut"); b.fields[("g", "which")] = Sym(BV64(2), "u64"); b.fields[("g", "from")] = fargs[2]
+            r.fields[("Ok", 0)] = b
+            st_.events.append(("await", name, fargs, r))
+            return [(S.poll_ready(dty, r), None)]
+        return None
+    ex.await_hook = await_hook
+    outs = P.drive_async(ex, st, fn, [Ref(mc, (), False, "&BPTreeFileIndex<K>"), key, Sym(start, "u64"), buf])
+    res.paths = len(outs)
+    from .ob_blob import _check_paths
+
+    def per_path(o, isok, payload):
+        steps = [e for e in o.events if (e[0] == "call" and e[1].endswith("key_offset_serialized")) or (e[0] == "await" and "read_exact_at" in e[1])]
+        cur = start
+        i = 0
+        while i < len(steps):
+            e = steps[i]
+            # a step is taken only from an offset inside the tree
+            if not P.prove(ex, res, o, z3.ULT(cur, leaves), "a node is visited only at an offset below leaves_offset"):
+                return False
+            if e[0] == "await":
+                if not P.prove(ex, res, o, z3.And(cur != tree, e[2][2].t == cur), "a non-root node is read from the file at the current offset"):
+                    return False
+                r_ok = ex.get_discr(o, e[3]).t == BV64(0)
+                if i + 1 >= len(steps) or steps[i + 1][0] != "call":
+                    if not P.prove(ex, res, o, z3.And(z3.Not(r_ok), z3.Not(isok)), "descent ends after a read only because the read failed; error returned"):
+                        return False
+                    P.cover(ex, res, o, z3.Not(r_ok), "node read failed")
+                    return True
+                if not P.prove(ex, res, o, r_ok, "a node is searched only after it was read"):
+                    return False
+                srch = steps[i + 1]
+                i += 2
+            else:
+                if not P.prove(ex, res, o, cur == tree, "the in-memory root node is used exactly at tree_offset"):
+                    return False
+                srch = e
+                i += 1
+            s_ok = ex.get_discr(o, srch[3]).t == BV64(0)
+            if i >= len(steps):
+                # last step on this path
+                nxt = ex._get_field(o, srch[3], "Ok", 0, "u64").t
+                if not P.prove(ex, res, o, z3.Implies(z3.Not(s_ok), z3.Not(isok)), "node search error is returned"):
+                    return False
+                if not P.prove(ex, res, o, z3.Implies(isok, z3.And(s_ok, z3.UGE(nxt, leaves))), "the descent stops only at an offset that is not below leaves_offset"):
+                    return False
+                roff = payload.fields[("Ok", 0)].fields[(None, 1)].t if ("Ok", 0) in payload.fields else None
+                if roff is not None and not P.prove(ex, res, o, z3.Implies(isok, roff == nxt), "the offset returned is the one the last node gave"):
+                    return False
+                P.cover(ex, res, o, z3.And(isok, nxt == leaves, z3.BoolVal(len(steps) >= 3)), "two levels, ends exactly at the first leaf")
+                return True
+            if not P.prove(ex, res, o, s_ok, "the descent goes on only after a successful node search"):
+                return False
+            cur = ex._get_field(o, srch[3], "Ok", 0, "u64").t
+        # no step at all
+        roff = payload.fields[("Ok", 0)].fields[(None, 1)].t if ("Ok", 0) in payload.fields else None
+        if not P.prove(ex, res, o, z3.And(isok, z3.UGE(start, leaves), roff == start if roff is not None else z3.BoolVal(True)), "no node visited only when the start offset already is a leaf offset"):
+            return False
+        P.cover(ex, res, o, isok, "start offset is already a leaf")
+        return True
+
+    _check_paths(ex, res, outs, per_path)
+    return P.finish(ex, res, ["two levels, ends exactly at the first leaf", "node read failed", "start offset is already a leaf"])
+
+
+def go_right_file_run(crate, R=3):
+    """C09: BPTreeFileIndex::go_right_file: record headers are read one by one from the given file offset, each whole
+    record inside the leaves region; the ones carrying the run's key are collected in file order; the scan stops at the
+    first record of another key or at the end of the leaves region (never beyond it); read / decode errors are returned."""
+    res = P.ObResult("go_right_file_run[<=%d records]" % R)
+    fn = crate.method("BPTreeFileIndex", "go_right_file")
+    res.functions = ["BPTreeFileIndex::go_right_file (async body)"]
+    RHS = 60
+    res.bounds = "record header size %d (concrete), <= %d records read (loop unwound %d times, longer runs dropped), arbitrary offsets / records count (< 2^32)" % (RHS, R, R + 1)
+    from .ob_blob import _check_paths
+
+    def h_keycmp(ex_, st_, frame, t, nf, args, dty):
+        i = len([e for e in st_.events if e[0] == "keycmp"])
+        same = z3.Bool("same_key_%d" % i)
+        st_.events.append(("keycmp", nf, same, None))
+        return [(Sym(same if nf.endswith("::eq") else z3.Not(same), "bool"), None)]
+
+    def h_deser(ex_, st_, frame, t, nf, args, dty):
+        r = ex_.fresh(dty, st_, "hdr")
+        st_.events.append(("decode", "bincode::deserialize", None, r))
+        return [(r, None)]
+    ex = P.mk_executor(crate, cap=R + 2, loop_bound=R + 1, inline=[],
+                       extra_summaries=[(r"^<\[u8\] as PartialEq>::(eq|ne)$", h_keycmp), (r"^bincode::deserialize$", h_deser)],
+                       havoc=[r"^(bytes::)?BytesMut::zeroed$", r"^<BytesMut as Deref>::deref$"])
+    ex.unwind_assume = True
+    st = State()
+    me = Obj("bptree::core::BPTreeFileIndex<K>")
+    hdr = Obj("blob::index::header::IndexHeader")
+    rc = z3.BitVec("records_count", 64)
+    hdr.fields[(None, crate.field_index("IndexHeader", "record_header_size"))] = Sym(BV64(RHS), "usize")
+    hdr.fields[(None, crate.field_index("IndexHeader", "records_count"))] = Sym(rc, "usize")
+    me.fields[(None, crate.field_index("BPTreeFileIndex", "header"))] = hdr
+    meta = Obj("bptree::meta::TreeMeta")
+    leaves = z3.BitVec("leaves_offset", 64)
+    meta.fields[(None, crate.field_index("TreeMeta", "leaves_offset"))] = Sym(leaves, "u64")
+    me.fields[(None, crate.field_index("BPTreeFileIndex", "metadata"))] = meta
+    mc = st.new_cell(me)
+    off0 = z3.BitVec("start_offset", 64)
+    st.pc.append(z3.And(z3.ULT(rc, BV64(1 << 20)), z3.ULT(leaves, BV64(1 << 32)), z3.ULT(off0, BV64(1 << 34))))
+    headers = VecV(P.HEADER_TY, R + 2, Sym(BV64(1), "usize"), [P.mk_header(crate, "hit")] + [None] * (R + 1))
+    hc = st.new_cell(headers)
+    outs = P.drive_async(ex, st, fn, [Ref(mc, (), False, "&BPTreeFileIndex<K>"), Ref(hc, (), True, "&mut Vec<Header>"), Sym(off0, "u64")])
+    res.paths = len(outs)
+    end = leaves + BV64(RHS) * rc
+
+    def per_path(o, isok, payload):
+        reads = [e for e in o.events if e[0] == "await" and "read_exact_at" in e[1]]
+        cmps = [e[2] for e in o.events if e[0] == "keycmp"]
+        for j, e in enumerate(reads):
+            off = e[2][2].t
+            if not P.prove(ex, res, o, z3.And(off == off0 + BV64(RHS * j), z3.ULE(off + BV64(RHS), end)), "read %d: the next whole record, inside the leaves region" % j):
+                return False
+        for j in range(len(cmps) - 1):
+            if not P.prove(ex, res, o, cmps[j], "the scan goes on only past records of the run's key"):
+                return False
+        hv = o.mem[hc]
+        npush = sum([z3.If(c, BV64(1), BV64(0)) for c in cmps], BV64(0)) if cmps else BV64(0)
+        if not P.prove(ex, res, o, z3.Implies(isok, hv.len.t == BV64(1) + npush), "every record of the run's key is collected, the first other key is not"):
+            return False
+        if len(cmps) == len(reads):
+            # ended normally: by another key, or because the next record would not fit in the leaves region
+            last_other = z3.Not(cmps[-1]) if cmps else z3.BoolVal(False)
+            fits = z3.ULE(off0 + BV64(RHS * (len(reads) + 1)), end)
+            if not P.prove(ex, res, o, z3.Implies(isok, z3.Or(last_other, z3.Not(fits))), "the scan ends only at another key or at the end of the leaves region"):
+                return False
+        P.cover(ex, res, o, z3.And(isok, z3.BoolVal(len(reads) >= 2), z3.And(cmps) if cmps else z3.BoolVal(False)), "run reaches the end of the leaves region")
+        P.cover(ex, res, o, z3.And(isok, z3.BoolVal(len(reads) >= 2), z3.Not(cmps[-1]) if cmps else z3.BoolVal(False)), "run ends at another key")
+        P.cover(ex, res, o, z3.Not(isok), "read or decode error")
+        return True
+
+    _check_paths(ex, res, outs, per_path)
+    return P.finish(ex, res, ["run reaches the end of the leaves region", "run ends at another key", "read or decode error"])
